@@ -2,6 +2,10 @@
 
 pub mod c01;
 pub mod c05;
+pub mod c06;
+pub mod c07;
+pub mod c13;
+pub mod common;
 pub mod c14;
 pub mod c15;
 pub mod c19;
@@ -10,7 +14,7 @@ pub mod c20;
 use crate::engine::Property;
 
 pub fn all() -> Vec<Property> {
-    vec![c01::property(), c05::property(), c14::property(), c15::property(), c19::property(), c20::property()]
+    vec![c01::property(), c05::property(), c06::property(), c07::property(), c13::property(), c14::property(), c15::property(), c19::property(), c20::property()]
 }
 
 pub fn by_id(id: &str) -> Option<Property> {
